@@ -121,7 +121,8 @@ def explain(ctx, cache, dev, evs, bad):
     seeds = tuple(sorted(e["k"] for e in evs if e["ev"] == "call" and e["r"].startswith("s")))
     op = {e["r"]: (e["op"], e["k"]) for e in calls if e["ev"] == "call"}
     res = {e["r"]: e["res"] for e in calls if e["ev"] == "ret"}
-    order = ",".join(("c:" if e["ev"] == "call" else "r:") + e["r"] for e in calls)
+    seq = [("c:" if e["ev"] == "call" else "r:") + e["r"] for e in calls]
+    order = "r1r2" if seq.index("r:r1") < seq.index("c:r2") else ("r2r1" if seq.index("r:r2") < seq.index("c:r1") else "conc")
     stop = any("stop=true" in str(e.get("plan", "")) for e in evs)
     f = bad["file"]
     if f.get("k3", "absent") != "absent":
@@ -131,8 +132,8 @@ def explain(ctx, cache, dev, evs, bad):
     if sig in cache:
         return cache[sig]
     env = dict(EXP_OP1=op["r1"][0], EXP_K1=op["r1"][1], EXP_OP2=op["r2"][0], EXP_K2=op["r2"][1],
-               EXP_RES1=res["r1"], EXP_RES2=res["r2"], EXP_F1=fmap(f["k1"]), EXP_F2=fmap(f["k2"]), EXP_ORD=order)
-    text = cfg("ESpec", dev, "ExpMenu", seeds, stop, "VIEW eview\nINVARIANTS NoExplanation")
+               EXP_RES1="ok" if res["r1"] == "ok" else "noeffect", EXP_RES2="ok" if res["r2"] == "ok" else "noeffect", EXP_F1=fmap(f["k1"]), EXP_F2=fmap(f["k2"]), EXP_ORD=order)
+    text = cfg("ESpec", dev, "ExpMenu", seeds, stop, "VIEW view\nINVARIANTS NoExplanation")
     r = ctx.tlc("Explain_Lifecycle", cfg_text=text, deadlock=False, workers=1, env=env, timeout=1800,
                 name="explain-%d" % len(cache), count_states=False)
     if r.error:
@@ -187,6 +188,17 @@ def run(ctx):
         return w, r
     wfuts = [pool.submit(wit, w) for w in WITNESSES if set(w[0]) <= dev]
 
+    # disabled-action probes: states in which the spec does not allow SummonSwamp / the vigil drain to go on
+    PROBES = {"summon": ("NoProbeSummon", dict(kind="summon", r="r2", op=dict(op="set", k="k2"))),
+              "drain": ("NoProbeDrain", dict(kind="drain", r="r1", op=dict(op="", k="")))}
+
+    def probe(kind):
+        inv, rec = PROBES[kind]
+        r = ctx.tlc("Sim_Lifecycle", cfg_text=cfg("MCSpec", dev, "MenuDelSet2", ("k1",), False, "VIEW view\nINVARIANTS " + inv, want=()),
+                    deadlock=False, workers=1, timeout=3000, name="probe-" + kind, count_states=False)
+        return kind, rec, r
+    pfuts = [pool.submit(probe, k) for k in sorted(PROBES)]
+
     # ------------------------------------------------------------------ 3. sampled complete behaviours of the as-built spec
     sim_cfgs = [("MenuSetDel", ("k1",), False), ("MenuShift", ("k1", "k2"), False), ("MenuDestroy", ("k1",), False),
                 ("MenuSetDel", ("k1", "k2"), True), ("MenuFull", (), False), ("MenuFull", ("k1",), True)]
@@ -223,6 +235,15 @@ def run(ctx):
         wit_ids[sc["id"]] = need
         schedules.append(sc)
     ctx.extra["asbuilt_witnesses"] = sorted(wit_ids)
+    for f in pfuts:
+        kind, rec, r = f.result()
+        ss = parse_printed(r, "hist")
+        if not r.violated or not ss:
+            raise vlib.Inconclusive("no probe state for %s found by TLC: %s %s" % (kind, r.violated, (r.error or "")[:300]))
+        sc = ss[0]
+        sc["id"] = "probe:" + kind
+        sc["probe"] = rec
+        schedules.append(sc)
     seen = set(json.dumps(acts(s)) for s in schedules)
     sims = []
     for f in sfuts:
@@ -253,7 +274,8 @@ def run(ctx):
     sf = os.path.join(ctx.work, "schedules.json")
     json.dump(schedules, open(sf, "w"))
     rf = os.path.join(ctx.work, "results.ndjson")
-    ctx.run_driver(binary, ["replaymany", sf, rf, "8" if thorough else "6"], timeout=5400)
+    denv = {"VERIF_C16_FRESHCHECK": "0" if "Stale" in dev else "1"}
+    ctx.run_driver(binary, ["replaymany", sf, rf, "8" if thorough else "6"], timeout=5400, env=denv)
     results = [json.loads(l) for l in open(rf)]
     if len(results) != len(schedules):
         raise vlib.Inconclusive("replay driver returned %d results for %d schedules" % (len(results), len(schedules)))
@@ -262,6 +284,7 @@ def run(ctx):
     bad = {judged[j]: b for j, b in bad.items()}
     infra, notes = [], []
     reproduced = set()
+    cache = {}
     for i, (sc, r) in enumerate(zip(schedules, results)):
         a = acts(sc)
         ctx.count_case(a, nontrivial=len(set(x[0] for x in a) & {"CFlag", "RDFlag", "FDelete", "LCheck", "SClose"}) > 0)
@@ -272,7 +295,24 @@ def run(ctx):
         rep = dict(kind="schedule", schedule=sc, result={k: v for k, v in r.items() if k != "log"}, condemned=bad.get(i))
         real_res = {e["r"]: e["res"] for e in r["events"] if e["ev"] == "ret" and e["r"].startswith("r")}
         problem = None
-        if r.get("mismatch"):
+        if sc.get("probe"):
+            # the schedule ends in a state where the probed step is disabled; after the probe everything runs freely,
+            # so there is no predicted final state: TLC judges the history, a loss must be an as-built behaviour
+            if r.get("mismatch"):
+                problem = "step %s: %s" % (r.get("at_step"), r["mismatch"])
+            elif lost:
+                used = explain(ctx, cache, dev, trace_lines(r), bad[i])
+                if used is None:
+                    ctx.deviation(None, "probe schedule %s: acknowledged write lost and no as-built behaviour has this history: read back %s, allowed %s" % (
+                        sc["id"], bad[i]["file"], bad[i]["allowed"]), rep)
+                else:
+                    for d in (used or {"?"}):
+                        ctx.deviation(FID.get(d), "probe schedule %s, free run after the probe: read back %s, history allows %s (as-built behaviour found by TLC, deviation %s)" % (
+                            sc["id"], bad[i]["file"], bad[i]["allowed"], d), rep)
+                continue
+            else:
+                continue
+        elif r.get("mismatch"):
             problem = "step %s: %s" % (r.get("at_step"), r["mismatch"])
         elif r["observed"] != {k: v for k, v in sc["file"].items()}:
             problem = "reloaded state %s differs from the state the as-built spec predicts %s" % (r["observed"], sc["file"])
@@ -304,7 +344,6 @@ def run(ctx):
         ctx.sample(dict(kind="replayed schedule", id=sc["id"], steps=acts(sc), predicted_file=sc["file"], used=sc["used"]))
 
     # ------------------------------------------------------------------ 5. binding A: churn stress, history judged by TLC
-    cache = {}
     if not ctx.replay:
         batches = [("stress-%d" % b, False, b) for b in range(3 if thorough else 1)] + [("stop-%d" % b, True, 100 + b) for b in range(3 if thorough else 1)]
 
